@@ -27,6 +27,11 @@ pub struct St {
     pub rx: RxS,
     /// label carried by the nearest preceding start/complete packet (what a re-use label refers to)
     pub near: Option<Lbl>,
+    /// label the receiver is OBLIGED to still resolve a re-use label to: that of the nearest preceding start/complete
+    /// packet if it was accepted and no padding (end of frame) came since. `near` says what a resolution MAY yield.
+    pub obliged: Option<Lbl>,
+    /// for trains whose first fragment carries a re-use label: the label it referred to when it was (re)started
+    pub resolved: Vec<Option<Lbl>>,
 }
 
 #[derive(Clone, Debug, PartialEq, Eq)]
@@ -65,6 +70,11 @@ fn slot_view(rx: &RxS, id: u8) -> Option<(CtxS, Vec<u8>)> {
 
 impl Sys {
     pub fn new(slots: usize, shapes: &[(usize, usize)], with_evictor: bool) -> Sys {
+        Sys::new_with_reuse(slots, shapes, with_evictor, &[])
+    }
+    /// `reuse`: indices of trains whose first fragment carries a re-use label (sent right after a start/complete
+    /// packet with the same label)
+    pub fn new_with_reuse(slots: usize, shapes: &[(usize, usize)], with_evictor: bool, reuse: &[usize]) -> Sys {
         // shapes: (pdu length, number of fragments)
         let labels = [L6A, L3A, Lbl::Bcast, L6B, L3B];
         let mut trains = vec![];
@@ -72,7 +82,7 @@ impl Sys {
             let pd = pdu(plen, (i % 4) as u8);
             let base = plen / nfrag;
             let cuts: Vec<usize> = (0..nfrag - 1).map(|k| if k == 0 { base.max(1) } else { base.max(1) }).collect();
-            let l = labels[i % labels.len()];
+            let l = if reuse.contains(&i) { Lbl::ReUse } else { labels[i % labels.len()] };
             let pt = [0x0800u16, 0x86DD, 0xFFFF, 0x0600][i % 4];
             // every second train uses an id >= the number of slots (same slot, i + n), so that both
             // "high id in progress, low aliasing stray" and the reverse occur
@@ -135,16 +145,18 @@ impl System for Sys {
     type Op = Op;
     fn init(&self) -> Vec<St> {
         let bufs: Vec<usize> = (0..self.trains.len() + 1).map(|_| self.storage).collect();
-        vec![St { idx: vec![0; self.trains.len()], rx: RxS::new(self.slots, self.storage, &bufs), near: None }]
+        vec![St { idx: vec![0; self.trains.len()], rx: RxS::new(self.slots, self.storage, &bufs), near: None, obliged: None, resolved: vec![None; self.trains.len()] }]
     }
     fn ops(&self, s: &St) -> Vec<Op> {
         let mut v = vec![];
         for (i, t) in self.trains.iter().enumerate() {
             // 255 = evicted by a foreign first fragment: the train can only restart
-            if s.idx[i] != 255 && (s.idx[i] as usize) < t.pkts.len() {
+            // a first fragment with a re-use label is only sent when a start/complete packet precedes it in the frame
+            let can_start = t.label != Lbl::ReUse || s.obliged.is_some();
+            if s.idx[i] != 255 && (s.idx[i] as usize) < t.pkts.len() && (s.idx[i] > 0 || can_start) {
                 v.push(Op::Advance(i));
             }
-            if s.idx[i] == 255 || (s.idx[i] > 0 && (s.idx[i] as usize) < t.pkts.len()) {
+            if (s.idx[i] == 255 || (s.idx[i] > 0 && (s.idx[i] as usize) < t.pkts.len())) && can_start {
                 v.push(Op::Restart(i));
             }
         }
@@ -206,16 +218,36 @@ impl System for Sys {
         }
         // ghost: label of the nearest preceding start/complete packet
         let mut near = s.near;
+        let mut obliged = s.obliged;
+        let mut resolved = s.resolved.clone();
+        let starts = match op {
+            Op::Advance(i) if s.idx[*i] == 0 => Some(*i),
+            Op::Restart(i) => Some(*i),
+            _ => None,
+        };
+        if let Some(i) = starts {
+            if self.trains[i].label == Lbl::ReUse {
+                // refers to the nearest preceding start/complete packet, and is itself a start packet with that label
+                resolved[i] = s.obliged;
+            } else {
+                near = if self.trains[i].label.is_addr() { Some(self.trains[i].label) } else { None };
+                obliged = near;
+            }
+        }
         match op {
-            Op::Advance(i) if s.idx[*i] == 0 => near = if self.trains[*i].label.is_addr() { Some(self.trains[*i].label) } else { None },
-            Op::Restart(i) => near = if self.trains[*i].label.is_addr() { Some(self.trains[*i].label) } else { None },
             Op::Stray(j) => {
                 let st = &self.strays[*j];
+                if st.name == "padding" {
+                    // the rest of the frame is padding: the receiver may forget (the crate does), it need not
+                    obliged = None;
+                }
                 if let Some((_, l, _)) = &st.delivers {
                     near = if l.is_addr() { Some(*l) } else { None };
+                    obliged = near;
                 }
                 if st.evicts.is_some() {
                     near = Some(L3B);
+                    obliged = near;
                 }
             }
             _ => {}
@@ -241,16 +273,17 @@ impl System for Sys {
                 let t = &self.trains[*i];
                 let k = if matches!(op, Op::Restart(_)) { 0 } else { s.idx[*i] as usize };
                 let last = k + 1 == t.pkts.len();
+                let want_label = if t.label == Lbl::ReUse { resolved[*i].unwrap_or(Lbl::ReUse) } else { t.label };
                 match &out {
                     DecapOut::Fragmented { meta, consumed } if !last => {
-                        if meta.label != t.label || meta.pt != t.pt || *consumed != bytes.len() {
+                        if meta.label != want_label || meta.pt != t.pt || *consumed != bytes.len() {
                             viols.push(("C07|fragment-metadata".into(), format!("train {} packet #{}: {}", i, k, out.brief())));
                         }
                         idx[*i] = (k + 1) as u8;
                     }
                     DecapOut::Completed { buf, meta, consumed } if last => {
-                        if meta.pdu_len != t.pdu.len() || buf[..t.pdu.len().min(buf.len())] != t.pdu[..] || meta.label != t.label || meta.pt != t.pt || *consumed != bytes.len() {
-                            viols.push(("C07|delivered-differs".into(), format!("train {} (frag id {}) delivered with wrong bytes or metadata: {} (expected pdu {} label {} pt {:#06x})", i, t.id, out.brief(), hex(&t.pdu), t.label.short(), t.pt)));
+                        if meta.pdu_len != t.pdu.len() || buf[..t.pdu.len().min(buf.len())] != t.pdu[..] || meta.label != want_label || meta.pt != t.pt || *consumed != bytes.len() {
+                            viols.push(("C07|delivered-differs".into(), format!("train {} (frag id {}) delivered with wrong bytes or metadata: {} (expected pdu {} label {} pt {:#06x})", i, t.id, out.brief(), hex(&t.pdu), want_label.short(), t.pt)));
                         }
                         idx[*i] = t.pkts.len() as u8;
                         rx2.mem.free.push(vec![0u8; buf.len()]); // the caller re-provisions the delivered buffer
@@ -330,7 +363,7 @@ impl System for Sys {
             let n = (f.0.pdu_len as usize).min(f.1.len());
             f.1[n..].iter_mut().for_each(|x| *x = 0);
         }
-        StepOut { next: Some(St { idx, rx: rx2, near }), viols }
+        StepOut { next: Some(St { idx, rx: rx2, near, obliged, resolved }), viols }
     }
     fn op_json(&self, op: &Op) -> Value {
         match op {
@@ -347,34 +380,43 @@ pub fn sys_from_name(name: &str) -> Option<Sys> {
     let tr = &name[name.find('[')? + 1..name.find(']')?];
     let nums: Vec<usize> = tr.split(|c: char| !c.is_ascii_digit()).filter(|x| !x.is_empty()).filter_map(|x| x.parse().ok()).collect();
     let shapes: Vec<(usize, usize)> = nums.chunks(2).filter(|c| c.len() == 2).map(|c| (c[0], c[1])).collect();
-    let ev = name.ends_with("evictor=true");
-    Some(Sys::new(slots, &shapes, ev))
+    let ev = name.contains("evictor=true");
+    let reuse: Vec<usize> = match name.find("reuse=[") {
+        Some(k) => name[k + 7..].trim_end_matches(']').split(',').filter_map(|x| x.trim().parse().ok()).collect(),
+        None => vec![],
+    };
+    Some(Sys::new_with_reuse(slots, &shapes, ev, &reuse))
 }
 
 pub fn run(tier: Tier) -> i32 {
     let rep = Report::new("C07", tier);
-    rep.set_rule("for each configuration (trains = (PDU length, fragments) on fragment ids 0..k-1, memory of n slots) breadth-first search to closure over advance(i) / restart(i) / stray(j) with state = (next index per train, real receiver snapshot); strays: intermediate/end of ids aliasing each train's slot (id+n, id+2n), of an id mapping to an empty slot, duplicate end of an idle train, complete packets (3-byte, broadcast and re-use label, the latter checked against the nearest preceding start/complete label), padding, oversize aliasing intermediate, (one configuration) a foreign first fragment claiming an aliasing slot; oracle: delivery exactly at the own end fragment with own bytes/metadata, no other train's reassembly data altered by any op, strays leave the memory unchanged, every packet is presented followed by three non-padding bytes and must consume exactly its own length; distinct = (op kind, outcome); number of distinct receiver memories per index vector reported");
+    rep.set_rule("for each configuration (trains = (PDU length, fragments) on fragment ids 0..k-1, memory of n slots) breadth-first search to closure over advance(i) / restart(i) / stray(j) with state = (next index per train, real receiver snapshot); strays: intermediate/end of ids aliasing each train's slot (id+n, id+2n), of an id mapping to an empty slot, duplicate end of an idle train, complete packets (3-byte, broadcast and re-use label, the latter checked against the nearest preceding start/complete label), padding, oversize aliasing intermediate, (some configurations) a foreign first fragment claiming an aliasing slot; in some configurations trains whose first fragment carries a re-use label, offered only when a start/complete packet precedes them in the frame (padding ends the frame) and expected under the label of that packet; oracle: delivery exactly at the own end fragment with own bytes/metadata, no other train's reassembly data altered by any op, strays leave the memory unchanged, every packet is presented followed by three non-padding bytes and must consume exactly its own length; distinct = (op kind, outcome); number of distinct receiver memories per index vector reported");
     rep.assume("trains are built by the reference printer (independent of the crate's encapsulator); PDUs of 4..12 bytes, 2..5 fragments");
-    let mut configs: Vec<(usize, Vec<(usize, usize)>, bool)> = vec![
-        (2, vec![(4, 2), (6, 3)], false),
-        (3, vec![(4, 2), (6, 3)], false),
-        (2, vec![(6, 3), (8, 4)], true),
-        (3, vec![(4, 2), (5, 2), (6, 3)], false),
-        (4, vec![(4, 2), (6, 3), (8, 4)], false),
+    let mut configs: Vec<(usize, Vec<(usize, usize)>, bool, Vec<usize>)> = vec![
+        (2, vec![(4, 2), (6, 3)], false, vec![]),
+        (3, vec![(4, 2), (6, 3)], false, vec![]),
+        (2, vec![(6, 3), (8, 4)], true, vec![]),
+        (3, vec![(4, 2), (5, 2), (6, 3)], false, vec![]),
+        (4, vec![(4, 2), (6, 3), (8, 4)], false, vec![]),
     ];
-    configs.push((4, vec![(4, 2), (6, 3), (8, 4), (10, 5)], false));
-    configs.push((5, vec![(4, 2), (6, 3), (8, 4), (10, 5)], true));
-    configs.push((3, vec![(10, 5), (10, 5), (12, 4)], true));
-    configs.push((5, vec![(4, 2), (6, 3), (8, 4), (10, 5), (12, 4)], false));
+    configs.push((4, vec![(4, 2), (6, 3), (8, 4), (10, 5)], false, vec![]));
+    configs.push((5, vec![(4, 2), (6, 3), (8, 4), (10, 5)], true, vec![]));
+    configs.push((3, vec![(10, 5), (10, 5), (12, 4)], true, vec![]));
+    configs.push((5, vec![(4, 2), (6, 3), (8, 4), (10, 5), (12, 4)], false, vec![]));
+    // trains whose first fragment carries a re-use label (resolved against the nearest preceding start/complete packet)
+    configs.push((3, vec![(4, 2), (6, 3)], false, vec![1]));
+    configs.push((2, vec![(6, 3), (8, 4)], true, vec![0]));
+    configs.push((3, vec![(4, 2), (5, 2), (6, 3)], false, vec![0, 2]));
     if tier.thorough() {
-        configs.push((4, vec![(8, 4), (8, 4), (8, 4), (8, 4)], true));
-        configs.push((2, vec![(12, 4), (12, 6)], true));
-        configs.push((6, vec![(4, 2), (4, 2), (6, 3), (6, 3), (6, 2), (8, 4)], true));
-        configs.push((8, vec![(4, 2), (6, 3), (6, 2), (8, 4), (9, 3), (10, 5), (12, 6)], false));
+        configs.push((4, vec![(4, 2), (6, 3), (8, 4), (10, 5)], true, vec![1, 3]));
+        configs.push((4, vec![(8, 4), (8, 4), (8, 4), (8, 4)], true, vec![]));
+        configs.push((2, vec![(12, 4), (12, 6)], true, vec![]));
+        configs.push((6, vec![(4, 2), (4, 2), (6, 3), (6, 3), (6, 2), (8, 4)], true, vec![]));
+        configs.push((8, vec![(4, 2), (6, 3), (6, 2), (8, 4), (9, 3), (10, 5), (12, 6)], false, vec![]));
     }
-    for (ci, (slots, shapes, ev)) in configs.iter().enumerate() {
-        let sys = Sys::new(*slots, shapes, *ev);
-        let ex = explore(&sys, &Limits { max_states: 3_000_000, max_depth: 10_000 }, &rep, &format!("slots={} trains={:?} evictor={}", slots, shapes, ev));
+    for (ci, (slots, shapes, ev, reuse)) in configs.iter().enumerate() {
+        let sys = Sys::new_with_reuse(*slots, shapes, *ev, reuse);
+        let ex = explore(&sys, &Limits { max_states: 3_000_000, max_depth: 10_000 }, &rep, &format!("slots={} trains={:?} evictor={} reuse={:?}", slots, shapes, ev, reuse));
         if !ex.closed {
             rep.cap("a configuration did not close");
         }
@@ -391,7 +433,7 @@ pub fn run(tier: Tier) -> i32 {
         if !per.contains_key(&all_done) && rep.n_viol_sigs() == 0 {
             rep.violation("C07|vacuity|never-all-delivered", ci as u64, || ("no interleaving delivers all trains".into(), json!({"config": ci})));
         }
-        if max_mem > 1 && !*ev {
+        if max_mem > 1 && !*ev && reuse.is_empty() {
             rep.violation("C07|receiver-state-depends-on-interleaving", ci as u64, || (format!("config {}: the same progress of all trains is reached with {} different receiver memories depending on the interleaving", ci, max_mem), json!({"config": ci})));
         }
         let i = ex.states.len() - 1;
